@@ -74,3 +74,9 @@ V('C16', 'neg-bare-except', F, P + 'Block.try_acquire',
   'except BaseException:', 'except:', None)
 V('C16', 'neg-rename-local', F, P + 'Pool._acquire',
   'room_for_new_conns', 'has_room', None, count=2)
+
+V('C16', 'discard-replaced-only-with-waiters', 'edb/server/connpool/pool.py', 'edb.server.connpool.pool.Pool.release',
+  '                self._schedule_discard(block, conn)\n                self._schedule_new_conn(block)\n',
+  '                self._schedule_discard(block, conn)\n                if block.count_waiters():\n                    self._schedule_new_conn(block)\n', 'C16.R6', 'discard-is-replaced')
+V('C16', 'tick-early-exit-inclusive', 'edb/server/connpool/pool.py', 'edb.server.connpool.pool.Pool._tick',
+  '        if total_nwaiters < self._max_capacity:', '        if total_nwaiters <= self._max_capacity:', 'C16.R6', 'early-exit-vs-starving')
